@@ -159,9 +159,14 @@ Definition any_failure (u : urlclass) (r : response) (deep : option string) : bo
   bad_url u || non_2xx r || non_json r || bad_format r || has_errors r || data_not_object r
   || data_malformed r deep.
 
-(* the two classes on which the unpatched code lets a foreign exception escape *)
+(* the two classes on which the unpatched code lets a foreign exception escape: a URL without
+   http(s) scheme, and a response that passes every check of introspect_remote_schema but whose
+   data is not a complete introspection result *)
+Definition earlier_failure (u : urlclass) (r : response) : bool :=
+  bad_url u || non_2xx r || non_json r || bad_format r || has_errors r || data_not_object r.
 Definition g_c19_errors (u : urlclass) (r : response) (deep : option string) : bool :=
-  negb (match u with UNoScheme => true | _ => false end) && negb (data_malformed r deep).
+  negb (match u with UNoScheme => true | _ => false end) &&
+  (earlier_failure u r || negb (data_malformed r deep)).
 
 (* ================= 3. what introspection keeps of the input types ================= *)
 Definition inputs := list (string * list ifield).
